@@ -279,15 +279,17 @@ class Table:
 
 # ----------------------------------------------------------------------------- replay
 def filters_for(sub, pair, quick):
-    paths = [tuple(p) for p in pair["paths"]]
-    nonroot = sorted(p for p in paths if p)
-    fam = [[p] for p in sorted(paths)] + [list(c) for c in itertools.combinations(sorted(paths), 2)]
-    fam.append(sorted(paths))
-    if nonroot:
-        fam.append(nonroot)
+    """The filters replayed for a pair, out of the family TLC checked in-spec: single paths, pairs of paths, all paths
+    (with and without the root)."""
+    paths = sorted(tuple(p) for p in pair["paths"])
+    nonroot = [p for p in paths if p]
+    singles = [[p] for p in paths]
+    doubles = [list(c) for c in itertools.combinations(paths, 2)]
+    full = [paths] + ([nonroot] if nonroot else [])
     if quick or pair.get("deep"):
-        fam = sub.rng.sample(fam, min(4, len(fam)))
-    return fam
+        fam = singles + doubles + full
+        return sub.rng.sample(fam, min(4, len(fam)))
+    return singles + full + sub.rng.sample(doubles, min(8, len(doubles)))
 
 
 def _call(fn, kw, norm, err):
@@ -309,8 +311,7 @@ def _replay(sub, pairs):
         fams = filters_for(sub, pair, sub.quick)
         queries = [(None, iu, wu) for iu, wu in FLAGS]
         for f in fams:
-            fl = FLAGS if not sub.quick else [(False, False), (True, True)]
-            queries += [(f, iu, wu) for iu, wu in fl]
+            queries += [(f, iu, wu) for iu, wu in ((False, False), (True, True))]
         tab, gtab = Table(), Table()
         obs = [dict(o={}, g={}) for _ in queries]
 
@@ -490,7 +491,7 @@ def judge(ctx, rows, chunk=400):
                           observed_git={k: [row["grecs"][n - 1] for n in v] for k, v in q["g"].items()}, verdict=b)
             swapped = q["f"] != ["all"] and _dir_path_became_file(s, t)
             for law in b.get("failed", []):
-                if swapped and (law == "dirstate=generic" or "ds" in b.get("culprits", [])):
+                if swapped and (law == "dirstate=generic" or (law != "chk=generic" and "ds" in b.get("culprits", []))):
                     # one input class, several symptoms (lstat error, missing records): see the known finding
                     ctx.violation("%s:InterDirStateTree.iter_changes:filtered,non-empty-directory-path-now-a-file" % law,
                                   "law %s fails for InterDirStateTree (%s)" % (law, where), replay)
@@ -501,7 +502,7 @@ def judge(ctx, rows, chunk=400):
                     name, a, g = (("InterCHKRevisionTree", "chk", "inv") if law == "chk=generic" else
                                   ("InterDirStateTree", "ds", "wt"))
                     for cls in _diff_classes(row["recs"], q["o"][a], q["o"][g], q):
-                        ctx.violation("%s:%s.iter_changes:%s%s" % (law, name, "include_unchanged," if q["iu"] else "", cls),
+                        ctx.violation("%s:%s.iter_changes:%s" % (law, name, cls),
                                       "%s and InterInventoryTree disagree: %s (%s)" % (name, cls, where), replay)
                 else:
                     for k in b.get("culprits", []):
@@ -565,12 +566,12 @@ def run(ctx):
         if n == 1:
             for p in fresh:
                 p["deep"] = True
-            fresh = ctx.rng.sample(fresh, min(len(fresh), 6000))
+            fresh = ctx.rng.sample(fresh, min(len(fresh), 3000))
         pairs += fresh
     enumerated = len(seen)
     if ctx.quick:
-        pairs = ctx.rng.sample(pairs, min(len(pairs), 1200))
-    core.fork_map(ctx, _replay, pairs, chunks_per_proc=2)
+        pairs = ctx.rng.sample(pairs, min(len(pairs), 1000))
+    core.fork_map(ctx, _replay, pairs, chunks_per_proc=1 if ctx.quick else 4)
     classes = sorted({tuple(c) for w in ctx.collected for c in w["classes"]})
     done = sum(w["pairs"] for w in ctx.collected)
     if done != len(pairs):
@@ -590,9 +591,10 @@ def run(ctx):
              "at home, delete, unversioned file x dropped in a directory; %d pairs enumerated by TLC, %d replayed (%s); "
              "per pair: no filter x 4 (include_unchanged, want_unversioned) settings, plus %s. Non-trivial = s # t"
              % (enumerated, len(pairs),
-                "seeded sample" if ctx.quick else "all <=2-edit pairs and a seeded sample of 6000 3-edit pairs",
+                "seeded sample" if ctx.quick else "all <=2-edit pairs and a seeded sample of 3000 3-edit pairs",
                 "4 sampled filters (single paths, pairs of paths, all paths) x 2 settings" if ctx.quick else
-                "every filter of <= 2 paths and the all-paths filter x 4 settings (4 sampled filters for 3-edit pairs)"))
+                "every single-path filter, the all-paths filters and 8 sampled two-path filters x 2 settings (4 sampled "
+                "filters for 3-edit pairs)"))
     ctx.cov["exhaustive"] = False
     ctx.assume("file ids / names / texts are interchangeable beyond the five of each used")
     ctx.assume("validity of a filtered delta means parent-completeness; name collisions with unselected entries are "
